@@ -243,7 +243,15 @@ impl World {
     }
 
     pub fn connect(&mut self, rec: &mut Rec) -> usize {
+        // Harness and server share one descriptor table. Every other connect first occupies the lowest free
+        // descriptor numbers with placeholders, so that the CLIENT's socket gets a higher number and the hole —
+        // typically the number a connection (or the server's copy of the kill switch) released a moment ago — is
+        // still free when the server accepts: descriptor numbers are then reused on the SERVER side, which is what the
+        // identity clauses (C07, C18) are about.
+        let reserve = (self.clients.len() + self.polls) % 2 == 0;
+        let placeholders: Vec<std::fs::File> = if reserve { (0..2).filter_map(|_| std::fs::File::open("/dev/null").ok()).collect() } else { vec![] };
         let s = UnixStream::connect(&self.path).expect("connect");
+        drop(placeholders);
         s.set_nonblocking(true).unwrap();
         let i = self.clients.len();
         self.clients.push(ClientSim {
